@@ -1,5 +1,6 @@
 import Lean.Data.Json
 import ProductMD.Model.Str
+import ProductMD.Model.Py
 /-! JSON line protocol helpers for the model driver (core Lean only). -/
 namespace PM.Driver
 open Lean
@@ -45,5 +46,34 @@ def getStrs (j : Json) (k : String) : List Str :=
   (getArr j k).filterMap fun x => match x with | .str s => some s.toList | _ => none
 
 def get (j : Json) (k : String) : Json := (j.getObjVal? k).toOption.getD Json.null
+
+/-! ### PyVal <-> protocol JSON.  Floats travel as `{"$float": "<repr>"}`, foreign objects as `{"$other": <truthy>}`. -/
+partial def toPy : Json → PyVal
+  | .null => .none
+  | .bool b => .bool b
+  | .str s => .str s.toList
+  | .num n => if n.exponent == 0 then .int n.mantissa else .float (toString n).toList
+  | .arr a => .list (a.toList.map toPy)
+  | .obj kvs =>
+    match kvs.toList with
+    | [("$float", .str r)] => .float r.toList
+    | [("$other", .bool b)] => .other b
+    | l => .dict (l.map fun (k, v) => (k.toList, toPy v))
+
+partial def ofPy : PyVal → Json
+  | .none => .null
+  | .bool b => .bool b
+  | .int n => jint n
+  | .float r => Json.mkObj [("$float", jstr r)]
+  | .str s => jstr s
+  | .list xs => Json.arr (xs.map ofPy).toArray
+  | .dict kvs => Json.mkObj (kvs.map fun (k, v) => (String.ofList k, ofPy v))
+  | .other b => Json.mkObj [("$other", .bool b)]
+
+def errJson (e : Err) : Json := jerr e.name
+
+def exceptJson (f : α → Json) : Except Err α → Json
+  | .ok a => jok (f a)
+  | .error e => errJson e
 
 end PM.Driver
